@@ -126,6 +126,15 @@ CHECKS += [
 ]
 
 
+CHECKS += [
+    dict(property_id="C11", category="exploration",
+         text="Two generated checks on the real code. (1) the marked host's own recovery checker (real checkRecovery through the daemon's recovery loop body) over the product of transaction-set relations (behind / equal / ahead on the master's id / diverged / ahead by own transactions), replication states, read-only states, stuck semi-sync commits, resetup file, master reachable or not, with 1-3 runs and healing in between: a mark is removed only by the host's own process while the host is, in ground truth, a clean read-only replica without resetup file; an unclean replica gets the resetup file and keeps the mark. (2) histories in the cluster simulation (failovers with and without an unreplicated tail, switchovers, crashes, restarts, hand-made rogue masters also outside the active list, resetup tool, the hosts' recovery checks interleaved body by body with manager iterations): after every ZooKeeper change no marked non-master host is in active_nodes; the master key leaves a host that was down for the whole procedure only if it is marked; a host found claiming to be master and re-pointed is marked by the end of that iteration; no SET read_only=OFF reaches a marked host that is not the recorded master.",
+         design_ref="DESIGN.md section 4, C11",
+         note="Trusted: bodies run one at a time, so the state seen at a ZooKeeper change is the state the running body saw or made; ground truth is the fake servers' state.",
+         technique="property-based testing: generated input product for the recovery checker with a ground-truth validity oracle, and stateful history generation over the cluster simulation with invariants evaluated after every coordination-store change"),
+]
+
+
 # ---- computed last, after every CHECKS += above
 _claimed = {c["property_id"] for c in CHECKS}
 NOT_APPLICABLE = [dict(property_id=p, reason="check not built yet in this revision (framework under construction; see DESIGN.md build order)") for p in ALL if p not in _claimed]
